@@ -274,3 +274,30 @@ R.contract(
 )
 R.spec_funcs["old_strategy"] = lambda it: it.ghost["strategy0"]
 R.contracts[H + "HookDispatcher.apply_to_container"].ghost_init = {"strategy0": "strategy"}
+
+
+# ------------------------------------------------------------------------------------------------- apply_to_all_dispatchers: global, then schema, then test-level hooks
+import z3 as _z3
+from pyvc.values import Opaque as _Opaque, ref_sort as _ref_sort
+
+_GLOBAL = _Opaque("Dispatcher", _z3.Const("GLOBAL_HOOK_DISPATCHER", _ref_sort("Dispatcher")), "Dispatcher")
+R.module_values[H.rstrip(":") + ":GLOBAL_HOOK_DISPATCHER"] = _GLOBAL
+# at call sites: the dispatcher's result is a function of (dispatcher, strategy, container, context) - its own contract above says which function
+atc = R.contracts[H + "HookDispatcher.apply_to_container"]
+atc.pure = True
+atc.returns = Opq("Strategy")
+atc.call_ensures = {}
+R.alias("applied", H + "HookDispatcher.apply_to_container")
+R.spec_funcs["GLOBAL"] = lambda it: _GLOBAL
+R.contract(
+    H + "apply_to_all_dispatchers",
+    prop="C19",
+    args={"operation": Obj("spec:HookedOperation", schema=Obj("spec:HookedSchema", hooks=Opq("Dispatcher"))), "context": Obj(H + "HookContext", operation=OneOf(NoneT, Opq("Op"))),
+          "hooks": OneOf(NoneT, Opq("Dispatcher")), "strategy": Opq("Strategy"), "container": Str},
+    ensures={
+        # hooks of every scope apply: global first, then the schema's, then the test's own (each dispatcher applies exactly its applicable hooks: contract above)
+        "global_then_schema_then_test_hooks": "result == (applied(hooks, applied(operation.schema.hooks, applied(GLOBAL(), strategy, container, context), container, context), container, context) "
+                                              "if hooks is not None else applied(operation.schema.hooks, applied(GLOBAL(), strategy, container, context), container, context))",
+    },
+    replayable=False,
+)
